@@ -2,6 +2,8 @@
 // Small-scope exhaustive: depth x width 0..66 (every residue of row bits mod 32) x height -3..3 x palette forms,
 // factory grid, scan-line flips; against an independent BMP encoder/decoder.
 #include "mc/mc.hpp"
+#include "Stream/FileWriter.h"
+#include "Stream/FileReader.h"
 #include "ref/ref_bmp.hpp"
 #include "Bitmap/BitmapFile.h"
 #include "Stream/MemoryReader.h"
@@ -117,6 +119,12 @@ void accepted(Ctx& ctx, int depth, int32_t w, int32_t h, int palForm, uint32_t i
 		if (o3.cls != 'R') { bad("file-overloads-throw", o3.what); return; }
 		if (!(ff == f)) { bad("file-overload-read-differs-from-stream-read", ""); return; }
 		if (wf != w1) { bad("file-overload-write-differs-from-stream-write", ""); return; }
+		// the overloads taking temporary streams; the output path already holds a longer file
+		BitmapFile ft; std::vector<uint8_t> wt;
+		auto o4 = mc::guarded([&] { ft = BitmapFile::ReadIndexed(Stream::FileReader(in)); mc::writeFile(out, std::vector<uint8_t>(w1.size() + 777, 0xEE)); ft.WriteIndexed(Stream::FileWriter(out)); wt = mc::readFile(out); });
+		if (o4.cls != 'R') { bad("temporary-stream-overloads-throw", o4.what); return; }
+		if (!(ft == f)) { bad("temporary-stream-overload-read-differs", ""); return; }
+		if (wt != w1) { bad("temporary-stream-overload-write-differs", std::to_string(wt.size()) + " bytes for " + std::to_string(w1.size())); return; }
 		ctx.count("file-overloads/round-trips");
 	}
 	ctx.state(); ctx.trace();
